@@ -508,11 +508,11 @@ impl Family for Ladders {
         &["C04"]
     }
     fn rule(&self) -> &'static str {
-        "nesting ladders: 16 nesting constructs x depths 1,2,4,…,128 (thorough: 256), each compiled on the 8 MiB main-thread stack of a worker process; a stack overflow kills the worker and is attributed to the case; distinct = distinct (construct, depth)"
+        "nesting ladders: 16 nesting constructs x depths 1,2,4,…,64 (thorough: 128), each compiled on the 8 MiB main-thread stack of a worker process; a stack overflow kills the worker and is attributed to the case; distinct = distinct (construct, depth)"
     }
     fn cases(&self, tier: Tier) -> Box<dyn Iterator<Item = Value> + '_> {
         let mut v = Vec::new();
-        let maxd = if tier == Tier::Quick { 128 } else { 256 };
+        let maxd = if tier == Tier::Quick { 64 } else { 128 };
         for k in LADDERS {
             let mut d = 1;
             while d <= maxd {
@@ -523,7 +523,14 @@ impl Family for Ladders {
         Box::new(v.into_iter())
     }
     fn workers(&self) -> usize {
-        8
+        16
+    }
+    fn case_timeout(&self, tier: Tier) -> u64 {
+        // some ladders are (polynomially) slow in the nesting depth; only non-termination is a verdict
+        match tier {
+            Tier::Quick => 60,
+            Tier::Thorough => 300,
+        }
     }
     fn run(&self, case: &Value, ctx: &mut Ctx) -> Report {
         let mut rep = Report::default();
